@@ -186,8 +186,8 @@ def copy_field_kinds(ctx: Ctx, I: Interp, rule: str = "C08.copy") -> None:
         s = SObj("self", {"TAG"})
         return ({fn.args.args[0].arg: s}, s)
 
-    from ..eval_call import _is_dict_copy_idiom
-    if _is_dict_copy_idiom(fn):
+    from ..eval_call import is_field_copy
+    if is_field_copy(prog, prog.core(), fn):
         ctx.ok(rule, "Tag.__copy__ copies every instance field with copy(): field classes are preserved")
         return
     n = 0
